@@ -33,6 +33,9 @@ func checkC15(p *Prog, l *Ledger) {
 	// ---- S2
 	checkTextSites(p, l)
 	checkNoSecondNumberText(p, l, "C15/S2-text-function/one-routine")
+	// %v renders a float64 and an int64 of the same value differently above 1e6 (and `+` renders through float64): the
+	// text of a number is well defined only if every number has the one representation (C16's universe rule)
+	l.AsOnly(map[string]string{"C16/S1-": "C15/S2-text-function/one-representation/"}, func() { checkC16(p, l) })
 	// what `+` splices in for a text operand is that text itself, and for a number the %v rendering: the `+` row of
 	// C02's operator table (text(left) + text(right), operands unchanged)
 	l.AsOnlyWhere(map[string]string{"C02/I1-operator-table": "C15/S3-concatenation-operands"}, func(o *Obligation) bool { return o.Construct == "Binary#PLUS" }, func() { checkC02(p, l) })
